@@ -75,6 +75,13 @@ func (e *Evidence) Case(class, key string) {
 	e.mu.Unlock()
 }
 
+// Nontrivial records a distinct non-trivial key without counting an evaluation.
+func (e *Evidence) Nontrivial(key string) {
+	e.mu.Lock()
+	e.nontrivial[hash64(key)] = struct{}{}
+	e.mu.Unlock()
+}
+
 // Class adds to the histogram without counting an evaluation.
 func (e *Evidence) Class(class string) {
 	e.mu.Lock()
